@@ -340,6 +340,29 @@ Proof.
     rewrite X; [apply (IH old attrs c Hk' Hin Hnz)|]. intros kv Hkv. apply HF, Hkv.
 Qed.
 
+Lemma orm_bulk_update_params_get : forall cols m c, distinct_keys cols = true -> In c cols ->
+  get (ckey c) (orm_bulk_update_params cols m) = get (ckey c) m.
+Proof.
+  induction cols as [|c0 r IH]; intros m c Hk Hin; [destruct Hin|].
+  assert (Hk' : distinct_keys r = true) by (cbn [distinct_keys] in Hk; apply andb_prop in Hk; apply Hk).
+  unfold orm_bulk_update_params in *. cbn [flat_map].
+  set (F := fun c1 : col => match get (ckey c1) m with Some v => [(ckey c1, v)] | None => [] end).
+  assert (HF : forall c1 kv, In kv (F c1) -> fst kv = ckey c1).
+  { intros c1 kv Hkv. unfold F in Hkv. destruct (get (ckey c1) m); [destruct Hkv as [<-|[]]; reflexivity|destruct Hkv]. }
+  fold F. destruct Hin as [->|Hin].
+  - assert (Hrest : get (ckey c) (flat_map F r) = None).
+    { apply get_flat_map_notin; [intros c1 _ kv Hkv; apply HF, Hkv|].
+      intros c1 Hc1 E. apply (distinct_keys_notin c r Hk c1 Hc1). auto. }
+    unfold F at 1. destruct (get (ckey c) m) as [v|]; cbn [app get]; rewrite ?Nat.eqb_refl; [reflexivity|exact Hrest].
+  - pose proof (distinct_keys_notin c0 r Hk c Hin) as Hne.
+    assert (forall l : pset, (forall kv, In kv l -> fst kv = ckey c0) -> forall q, get (ckey c) (l ++ q) = get (ckey c) q) as X.
+    { induction l as [|[k' v'] l IHl]; intros Hl q; [reflexivity|]. cbn [app get].
+      pose proof (Hl (k', v') (or_introl eq_refl)) as E. cbn [fst] in E. subst k'.
+      destruct (Nat.eqb (ckey c) (ckey c0)) eqn:E2; [apply Nat.eqb_eq in E2; exfalso; auto|].
+      apply IHl. intros kv Hkv. apply Hl. right. exact Hkv. }
+    rewrite X; [apply (IH m c Hk' Hin)|]. intros kv Hkv. apply HF, Hkv.
+Qed.
+
 (* every group the unit of work emits is homogeneous: the executemany theorem applies to each statement *)
 Lemma take_group_same : forall cols p0 ps g t, take_group cols p0 ps = (g, t) ->
   (forall x, In x g -> same_keys cols p0 (fst x) = true) /\ ps = g ++ t.
